@@ -45,6 +45,8 @@ class Engine:
         self.stats = dict(paths=0, aborted=0, abandoned=0, queries=0, solver_s=0.0, decisions=0, forced=0, cache_hits=0, replayed=0)
         self.limits = []              # reasons of abandoned paths (EngineLimit)
         self.stop = None              # callable -> True when exploration should stop early
+        self.path_budget = None       # when set: after this many paths the unexplored prefixes are handed back in self.leftover
+        self.leftover = []
         self.on_path_end = None       # hook(engine) called after a completed path, before the solver frame is popped
         self.frontier_depth = None    # when set: cut paths at this decision depth and collect prefixes
         self.frontier = []
@@ -223,7 +225,12 @@ class Engine:
     def explore(self, fn, roots=None):
         """Run fn(engine) once per path. roots: list of decision prefixes to explore (default: the whole tree)."""
         self.pending = [list(r) for r in (roots if roots is not None else [[]])]
+        done0 = self.stats["paths"] + self.stats["aborted"] + self.stats["abandoned"]
         while self.pending:
+            if self.path_budget is not None and self.stats["paths"] + self.stats["aborted"] + self.stats["abandoned"] - done0 >= self.path_budget:
+                self.leftover = self.pending
+                self.pending = []
+                break
             if self.stop is not None and self.stop():
                 self.stats["stopped_early"] = self.stats.get("stopped_early", 0) + len(self.pending)
                 self.pending = []
